@@ -404,6 +404,14 @@ def b_sorted(V, st, args, kwargs, node):
 
 @_b('next')
 def b_next(V, st, args, kwargs, node):
+    # next(iterable, default) on a sequence value: its first element, or the default
+    if len(args) == 2 and isinstance(args[0], SV) and isinstance(args[0].t, SeqT):
+        s = args[0]
+        first = SV(s.t.elem, s.z[0])
+        r = ite(z3.Length(s.z) > 0, first, args[1])
+        if r is None:
+            raise Unsupported('next() default of incompatible type')
+        return r
     raise Unsupported('next()')
 
 
